@@ -630,7 +630,12 @@ impl<'a> Interp<'a> {
         self.note("judging", String::new(), false);
         let got = match got {
             Ok(g) => g,
-            Err(e) => return Err(self.fail("get-returned-error", format!("get({key:?}) -> Err({e})"))),
+            Err(e) => {
+                if self.tolerate_error_after_delete(ki) {
+                    return Ok(None);
+                }
+                return Err(self.fail("get-returned-error", format!("get({key:?}) -> Err({e}) although no file of the key was deleted")));
+            }
         };
         if let Some(exp) = &expected {
             self.flags.probe_diff = true;
@@ -649,6 +654,20 @@ impl<'a> Interp<'a> {
         }
         self.after_multi("get", ki, got.as_deref())?;
         Ok(got)
+    }
+
+    /// The implementation lets layer errors fall through to the next layer, so a
+    /// lookup never fails. The statement does not demand that: an `Err` is accepted
+    /// (and nothing concluded from it) when the key's disk file was deleted by a fault.
+    fn tolerate_error_after_delete(&mut self, ki: usize) -> bool {
+        let d = self.disk();
+        if self.st[ki].slots[d].as_ref().is_some_and(|x| x.deleted) {
+            self.st[ki].slots[d] = None;
+            self.flags.layer_error_tolerated = true;
+            true
+        } else {
+            false
+        }
     }
 
     fn after_multi(&mut self, op: &str, ki: usize, got: Option<&[u8]>) -> R {
@@ -806,7 +825,16 @@ impl<'a> Interp<'a> {
         self.note("judging", String::new(), false);
         let got = match res {
             Ok(g) => g,
-            Err(e) => return Err(self.fail("batch_get-returned-error", format!("batch_get({names:?}) -> Err({e})"))),
+            Err(e) => {
+                let mut tolerated = false;
+                for &ki in &kis {
+                    tolerated |= self.tolerate_error_after_delete(ki);
+                }
+                if tolerated {
+                    return Ok(());
+                }
+                return Err(self.fail("batch_get-returned-error", format!("batch_get({names:?}) -> Err({e}) although no file of these keys was deleted")));
+            }
         };
         if got.len() != kis.len() {
             return Err(self.fail("batch_get-wrong-length", format!("batch_get of {} keys returned {} results", kis.len(), got.len())));
@@ -929,7 +957,10 @@ impl<'a> Interp<'a> {
             Ok(None) => self.after_multi("get_with_validation", ki, None),
             Err(e) => {
                 if !validating {
-                    return Err(self.fail("get_with_validation-returned-error", format!("get_with_validation({key:?}) without hooks+key -> Err({e})")));
+                    if self.tolerate_error_after_delete(ki) {
+                        return Ok(());
+                    }
+                    return Err(self.fail("get_with_validation-returned-error", format!("get_with_validation({key:?}) without hooks+key -> Err({e}) although no file of the key was deleted")));
                 }
                 let ckv = ck.unwrap();
                 let mismatch_possible = self.st[ki].slots.iter().flatten().any(|x| x.live() && md5(&x.bytes) != ckv);
